@@ -320,9 +320,28 @@ def r4_history_time_units(ctx, rid):
         raise AnalysisError(f"{rid}: no _solve_scipy_dde found")
 
 
+def r5_default_history_interpolates(ctx, rid):
+    """During run() the history handed to the compiled function is a DDEHistory: delayed terms read the true past only if its
+    lookup clamps and interpolates between the neighbouring records for ANY query order (same rule as C19-R5), and if it
+    records what it is given (C19-R2)."""
+    from .c19 import r5_query, r2_state_advances_together
+    r5_query(ctx, rid)
+    r2_state_advances_together(ctx, rid)
+    # the object handed out as default history is a DDEHistory of the initial state
+    f = ctx.repo.get_func(S.BASE_REL, "BaseBackend.get_hist_func")
+    rets = [n for n in walk_shallow(f.node) if isinstance(n, ast.Return)]
+    ok = len(rets) == 1 and isinstance(rets[0].value, ast.Call) and call_name(rets[0].value) == "DDEHistory" \
+        and rets[0].value.args and ast.unparse(rets[0].value.args[0]) == f.params[0]
+    if ok:
+        ctx.ok(rid, f, rets[0], "the default history is a DDEHistory started at the initial state", nontrivial=False)
+    else:
+        raise AnalysisError(f"{rid}: get_hist_func no longer returns DDEHistory(y, ...)")
+
+
 RULES = [
     ("C10-R1", r1_add_var_hist, 2),
     ("C10-R2", r2_history_index_is_state_index, 5),
     ("C10-R3", r3_solvers_feed_history, 3),
     ("C10-R4", r4_history_time_units, 6),
+    ("C10-R5", r5_default_history_interpolates, 6),
 ]
